@@ -508,13 +508,35 @@ func (c *Ctx) obWriters(field string, why string, allowed ...string) {
 		for top.Parent() != nil {
 			top = top.Parent()
 		}
-		ok := false
-		for _, a := range allowed {
-			if funcName(top) == a {
-				ok = true
-			}
-		}
+		ok := c.onlyCalledFrom(top, allowed, 0)
 		c.R.Ob(c.siteKey(site, field+" written only by its owners"), c.P.InstrPos(site), ok, fmt.Sprintf("%s is written in %s; its writers are %v (%s)", field, funcName(top), allowed, why))
 	}
 	c.R.Ob(field+"/has writers", "-", n >= 1, "no write of "+field+" found")
+}
+
+// onlyCalledFrom: f is one of the named functions, or an unexported helper all of whose call sites lie in such
+// functions (transitively): a write moved into a helper that only its owner calls keeps the same life cycle.
+func (c *Ctx) onlyCalledFrom(f *ssa.Function, allowed []string, depth int) bool {
+	for _, a := range allowed {
+		if funcName(f) == a {
+			return true
+		}
+	}
+	if depth > 3 || isExported(f) {
+		return false
+	}
+	callers := c.callersOf(f)
+	if len(callers) == 0 {
+		return false
+	}
+	for _, cs := range callers {
+		top := cs.Parent()
+		for top.Parent() != nil {
+			top = top.Parent()
+		}
+		if !c.onlyCalledFrom(top, allowed, depth+1) {
+			return false
+		}
+	}
+	return true
 }
